@@ -223,7 +223,7 @@ class Body:
             return ("agg", bi, si, n)
         return ("other", n)
 
-    def expr(self, operand, depth=0):
+    def expr(self, operand, depth=0, rich=False):
         """Expression tree of an operand (def-use unfolded, depth-limited):
           ('param', i) | ('const', value-or-string, type string) | ('bin', op, a, b) | ('un', op, a)
           | ('cast', kind, to_type, a) | ('call', callee path, [args], [type args], resolved path)
@@ -237,33 +237,43 @@ class Body:
         if k == "const":
             c = r[1]
             ty = self.F.ts(c["t"]) if "t" in c else "?"
+            if rich:
+                return ("const", c.get("v", c.get("s", c.get("p"))), ty, c)
             return ("const", c.get("v", c.get("s", c.get("p"))), ty)
         if k == "call":
             t = r[2]
             c = self.F.callee_of(t) or {}
             targs = [self.F.ts(a) if isinstance(a, int) else str(a) for a in c.get("a", [])]
-            return ("call", c.get("p", "?"), [self.expr(a, depth + 1) for a in t["args"]], targs, c.get("resp", c.get("p", "?")))
+            if rich:
+                return ("call", c.get("p", "?"), [self.expr(a, depth + 1, rich) for a in t["args"]], targs, c.get("resp", c.get("p", "?")), r[1])
+            return ("call", c.get("p", "?"), [self.expr(a, depth + 1, rich) for a in t["args"]], targs, c.get("resp", c.get("p", "?")))
         if k == "agg":
             rv = r[3]["r"]
             name = rv.get("adt", rv.get("ak")) + (("::" + rv["vname"]) if "vname" in rv else "")
-            return ("agg", name, [self.expr(o, depth + 1) for o in rv["ops"]])
+            return ("agg", name, [self.expr(o, depth + 1, rich) for o in rv["ops"]])
         if k == "field":
             base = r[1]
             be = ("param", base[1]) if base[0] == "param" else (base[0],) if base[0] != "call" else \
-                ("call", (self.F.callee_of(base[2]) or {}).get("p", "?"), [self.expr(a, depth + 1) for a in base[2]["args"]], [], "")
+                ("call", (self.F.callee_of(base[2]) or {}).get("p", "?"), [self.expr(a, depth + 1, rich) for a in base[2]["args"]], [], "")
+            if rich and base[0] == "call":
+                be = be + (base[1],)
+            elif rich and base[0] in ("multi", "undef"):
+                be = (base[0], base[1])
             return ("field", be, r[2])
         if k == "other" and r[1] and r[1].get("k") == "=":
             rv = r[1]["r"]
             if rv["k"] == "bin":
-                return ("bin", rv["op"], self.expr(rv["a"], depth + 1), self.expr(rv["b"], depth + 1))
+                return ("bin", rv["op"], self.expr(rv["a"], depth + 1, rich), self.expr(rv["b"], depth + 1, rich))
             if rv["k"] == "un":
-                return ("un", rv["op"], self.expr(rv["a"], depth + 1))
+                return ("un", rv["op"], self.expr(rv["a"], depth + 1, rich))
             if rv["k"] == "cast":
-                return ("cast", rv["ck"], self.F.ts(rv["to"]), self.expr(rv["o"], depth + 1))
+                return ("cast", rv["ck"], self.F.ts(rv["to"]), self.expr(rv["o"], depth + 1, rich))
             if rv["k"] == "discr":
-                return ("discr", self.expr({"p": rv["p"]}, depth + 1))
+                return ("discr", self.expr({"p": rv["p"]}, depth + 1, rich))
         if k == "multi":
             return ("multi", r[1])
+        if rich and k == "other" and r[1] and r[1].get("k") == "=":
+            return ("?", r[1]["r"].get("k"))
         return ("?",)
 
     def promoted_value(self, idx):
